@@ -1701,7 +1701,11 @@ func checkCase(c *core.Ctx, ct *cat, rows reflect.Value, split []int, wantVm boo
 			}
 			// the model's typed path (column at a time) on the same batch, both cuttings
 			if n <= 40 || n%16 == 1 {
-				for _, pol := range []string{"0", "1", "2"} {
+				pols := []string{"0", "1", "2"}
+				if n > 200 {
+					pols = []string{"2"} // big batches: the bitmap scanner cutting only
+				}
+				for _, pol := range pols {
 					breq := "c03.batch " + pol + " " + strings.TrimPrefix(req, "c03.shred_rows ")
 					if bg := c.Ask(breq); bg != got {
 						if ok {
@@ -1760,6 +1764,8 @@ func runCase(c *core.Ctx, ct *cat, rows reflect.Value, split []int, bucket strin
 }
 
 var shrinkBudget = 400
+
+var bigTime time.Duration
 
 // validRows: the shrinker must not turn a batch into one the library is not
 // required to accept (a required UUID string that does not parse, a byte slice
@@ -2569,7 +2575,7 @@ func randSplit(rng *rand.Rand, n int) []int {
 // ---------------------------------------------------------------------------
 
 func runC03(c *core.Ctx) {
-	c.Res.Rule = "catalogue of 129 entries = 88 compiled struct types under SchemaOf(T) or one or more explicit schemas: (1) required / `optional` scalars of every kind, pointers, repeated and LIST slices, nested lists, slices and maps of structs, embedded and nested structs, optional groups with repeated fields and vice versa, 3 levels of nesting; (2) every struct tag option of schema.go makeNodeOf: int(n)/uint(n) narrower, equal, wider and of the other signedness than the Go type, uintptr, decimal on int32/int64/[n]byte/[]byte, date/timestamp(unit[:utc|local])/time(unit) on integers, time.Time, time.Duration and their pointers, uuid on [16]byte/string, enum, string, bytes, interval on [12]byte/parquet.Interval, geometry, geography, json on strings / byte slices / structs / maps / slices / numbers / map[string]any, json.RawMessage, json.Number, variant, delta/split/dict/plain and per-field codecs, `-`, `-,`, renamed and unexported fields (holding data), id(n), `optional` on every Go kind, parquet-key/parquet-value/parquet-element tags, byte arrays of 12 sizes, *map, []*struct, maps of lists / maps / structs, lists of >1024 elements; (3) `any` fields written with an explicit schema node (leaf of each physical type required/optional/repeated/LIST/optional LIST of optional; variant; map[string]any to required/optional groups; []any and []map[string]any to repeated groups and LISTs) at top level and below optional groups, repeated groups and LISTs, []any / map[string]any / map[string]string typed fields; (4) T with an explicit schema equal to SchemaOf(T), with the fields sorted (top level / every depth), optional<->required flipped, LIST<->repeated flipped, other physical / logical types. Values are generated along the schema: every nullable site (pointer, zero-able scalar, slice, map, interface) follows, inverts or ignores a per-row (and per-element) run pattern with runs of 1..130 crossing 64-row words; batch sizes 1..200 plus one single Write call of 513..1300 rows per type; each batch goes through the fourteen ingestion paths (whole batch or split into several Write calls; the typed and the reflection buffer additionally with the rows reversed through Swap before reading); predicate: identical (column, value, r, d) sequences per row on every path, Reconstruct(Deconstruct(v)) = v up to nil/empty where Reconstruct is lossless; correspondence: Deconstruct streams = model shred_rows (= model shred_batch) on the harness' Go-value -> model-value mapping, model asm of the streams = the value. Plus a regression batch per repaired defect, five known findings pinned on fixed inputs, and the null-run sweep: single-word patterns with <= 3 runs at every in-word offset through the typed path on optional fields of every null-index kernel, compared with the pattern and with the model's scan. A case = (type, batch, split); non-trivial = at least 2 rows; distinct by type + JSON of the batch."
+	c.Res.Rule = "catalogue of 129 entries = 88 compiled struct types under SchemaOf(T) or one or more explicit schemas: (1) required / `optional` scalars of every kind, pointers, repeated and LIST slices, nested lists, slices and maps of structs, embedded and nested structs, optional groups with repeated fields and vice versa, 3 levels of nesting; (2) every struct tag option of schema.go makeNodeOf: int(n)/uint(n) narrower, equal, wider and of the other signedness than the Go type, uintptr, decimal on int32/int64/[n]byte/[]byte, date/timestamp(unit[:utc|local])/time(unit) on integers, time.Time, time.Duration and their pointers, uuid on [16]byte/string, enum, string, bytes, interval on [12]byte/parquet.Interval, geometry, geography, json on strings / byte slices / structs / maps / slices / numbers / map[string]any, json.RawMessage, json.Number, variant, delta/split/dict/plain and per-field codecs, `-`, `-,`, renamed and unexported fields (holding data), id(n), `optional` on every Go kind, parquet-key/parquet-value/parquet-element tags, byte arrays of 12 sizes, *map, []*struct, maps of lists / maps / structs, lists of >1024 elements; (3) `any` fields written with an explicit schema node (leaf of each physical type required/optional/repeated/LIST/optional LIST of optional; variant; map[string]any to required/optional groups; []any and []map[string]any to repeated groups and LISTs) at top level and below optional groups, repeated groups and LISTs, []any / map[string]any / map[string]string typed fields; (4) T with an explicit schema equal to SchemaOf(T), with the fields sorted (top level / every depth), optional<->required flipped, LIST<->repeated flipped, other physical / logical types. Values are generated along the schema: every nullable site (pointer, zero-able scalar, slice, map, interface) follows, inverts or ignores a per-row (and per-element) run pattern with runs of 1..130 crossing 64-row words; batch sizes 1..200 plus one single Write call of 513..1300 rows per type (quick tier: every other type, alternating with the seed); each batch goes through the fourteen ingestion paths (whole batch or split into several Write calls; the typed and the reflection buffer additionally with the rows reversed through Swap before reading); predicate: identical (column, value, r, d) sequences per row on every path, Reconstruct(Deconstruct(v)) = v up to nil/empty where Reconstruct is lossless; correspondence: Deconstruct streams = model shred_rows (= model shred_batch) on the harness' Go-value -> model-value mapping, model asm of the streams = the value. Plus a regression batch per repaired defect, five known findings pinned on fixed inputs, and the null-run sweep: single-word patterns with <= 3 runs at every in-word offset through the typed path on optional fields of every null-index kernel, compared with the pattern and with the model's scan. A case = (type, batch, split); non-trivial = at least 2 rows; distinct by type + JSON of the batch."
 	t0 := time.Now()
 	debug.SetGCPercent(400)                    // the writers allocate their page buffers anew for every case
 	if pf := os.Getenv("C03_PROF"); pf != "" { // debugging aid
@@ -2652,8 +2658,13 @@ func runC03(c *core.Ctx) {
 				}
 			}
 			// one Write call of more than 512 / more than 1024 rows
-			n := bigSizes[(ti+int(c.Seed))%len(bigSizes)]
-			runCase(c, ct, genBatch(rng, ct, n), nil, "big/"+ct.name, false)
+			// (quick tier: every other type, alternating with the seed)
+			if (ti+int(c.Seed))%2 == 0 {
+				n := bigSizes[(ti/2+int(c.Seed))%len(bigSizes)]
+				tBig := time.Now()
+				runCase(c, ct, genBatch(rng, ct, n), nil, "big/"+ct.name, false)
+				bigTime += time.Since(tBig)
+			}
 		} else {
 			for n := 1; n <= 200 && !tooManyHangs(c); n++ {
 				rows := genBatch(rng, ct, n)
@@ -2676,14 +2687,14 @@ func runC03(c *core.Ctx) {
 	if !c.Quick() {
 		c.Note("every batch size 1..200 for every catalogue type (%d types), and single Write calls of 513, 600, 1025, 1100 and 1300 rows", len(cats))
 	} else {
-		c.Note("every catalogue type also with one Write call of 513..1300 rows")
+		c.Note("every other catalogue type (alternating with the seed; all of them in the thorough tier) also with one Write call of 513..1300 rows")
 	}
 
 	t1 := time.Now()
 	if os.Getenv("C03_NOSWEEP") == "" { // debugging aid only
 		runSweep(c)
 	}
-	c.Note("wall time: catalogue batches %.1fs, null-run sweep %.1fs", t1.Sub(t0).Seconds(), time.Since(t1).Seconds())
+	c.Note("wall time: catalogue batches %.1fs (of which the single Write calls of 513..1300 rows %.1fs), null-run sweep %.1fs", t1.Sub(t0).Seconds(), bigTime.Seconds(), time.Since(t1).Seconds())
 	writeVm(c)
 }
 
